@@ -84,6 +84,19 @@ Record dw_conformant (strict : bool) (f : list N) (w : dw_walked) : Prop := {
   dw_cf_heads : dw_heads_unique (dw_w_chunks w);
   dw_cf_index_summary : dw_index_summary_ok (dw_w_chunks w) }.
 
+Lemma dw_len_eq : forall l, dw_len l = length l.
+Proof.
+  assert (G : forall l acc, dw_len_acc l acc = (length l + acc)%nat).
+  { induction l as [|x l IH]; intros acc; cbn [dw_len_acc length]; [reflexivity|]. rewrite IH. lia. }
+  intros l. unfold dw_len. rewrite G. lia.
+Qed.
+Lemma dw_len_N_eq : forall l, dw_len_N l = N.of_nat (length l).
+Proof.
+  assert (G : forall l a, fold_left (fun a (_ : N) => N.succ a) l a = a + N.of_nat (length l)).
+  { induction l as [|x l IH]; intros a; cbn [fold_left length]; [lia|]. rewrite IH. lia. }
+  intros l. unfold dw_len_N. rewrite G. lia.
+Qed.
+
 (* ---------------------------------------------------------------- the scan *)
 Lemma dw_land7 : forall x, N.land x 7 = x mod 8.
 Proof. intros x. change 7 with (N.ones 3). now rewrite N.land_ones. Qed.
@@ -391,7 +404,7 @@ Qed.
 
 Theorem dw_walk_gen_sound : forall strict f w, bytes_ok f -> dw_walk_gen strict f = DwOk w -> dw_conformant strict f w.
 Proof.
-  intros strict f w Hb H. unfold dw_walk_gen in H.
+  intros strict f w Hb H. unfold dw_walk_gen in H. rewrite dw_len_eq, dw_len_N_eq in H.
   destruct (fm_fh_complete f) eqn:Ec; cbn [negb] in H; [|discriminate].
   destruct (fm_fh_ident_ok f) eqn:Ei; cbn [negb] in H; [|discriminate].
   destruct (fm_decode_file_header f) as [fh|] eqn:Eh; [|discriminate].
@@ -556,7 +569,7 @@ Qed.
 (* for every byte list the walk answers Ok or a format error: the fuel (= number of bytes) is never exhausted *)
 Theorem dw_walk_gen_total : forall strict f o, dw_walk_gen strict f <> DwErr DwE_fuel o.
 Proof.
-  intros strict f o. unfold dw_walk_gen.
+  intros strict f o. unfold dw_walk_gen. rewrite dw_len_eq, dw_len_N_eq.
   destruct (fm_fh_complete f) eqn:Ec; cbn [negb]; [|discriminate].
   destruct (fm_fh_ident_ok f); cbn [negb]; [|discriminate].
   destruct (fm_decode_file_header f) as [fh|]; [|discriminate].
@@ -615,6 +628,242 @@ Proof. vm_compute. repeat split; reflexivity. Qed.
 
 Example dw_example_bytes_ok : bytes_ok dw_ex_file.
 Proof. apply bytes_ok_dec. vm_compute. reflexivity. Qed.
+
+(* ---------------------------------------------------------------- pointers: track head tables and index entries *)
+(* entry e of an index names a chunk of l of list identity `want` whose payload header carries timestamp ts *)
+Definition dw_entry_ok (l : list dw_chunk) (want : dw_key) (ts : Z) (e : N) : Prop :=
+  exists d, In d l /\ dw_off d = e /\ dw_key_of (dw_hdr d) = inr want /\ dw_chunk_ts d = Some ts.
+
+(* FSR index: entry k points to the chunk whose timestamp is ts + k * step; at level 1 a 0 entry = omitted data *)
+Fixpoint dw_fsr_entries_ok (l : list dw_chunk) (want : dw_key) (lvl : N) (ts step : Z) (es : list N) : Prop :=
+  match es with
+  | [] => True
+  | e :: r => ((e = 0 /\ lvl = 1) \/ (e <> 0 /\ dw_entry_ok l want ts e)) /\ dw_fsr_entries_ok l want lvl (ts + step)%Z step r
+  end.
+
+(* head table: entry 0 = first DATA chunk of the track, entry L = first INDEX chunk of level L, 0 if there is none *)
+Fixpoint dw_head_entries_ok (hs : list (dw_key * N)) (tt sid lvl : N) (es : list N) : Prop :=
+  match es with
+  | [] => True
+  | e :: r => dw_find_head (if lvl =? 0 then DwK_data tt sid else DwK_index tt sid lvl) hs = e /\ dw_head_entries_ok hs tt sid (lvl + 1) r
+  end.
+
+Definition dw_track_ok (l : list dw_chunk) (c : dw_chunk) : Prop :=
+  let h := dw_hdr c in
+  let t := fm_tag h in
+  let tt := fm_tag_track_type t in
+  let ck := fm_tag_chunk_kind t in
+  let sid := fm_meta_signal (fm_chunk_meta h) in
+  let lvl := fm_meta_level (fm_chunk_meta h) in
+  let p := dw_payload c in
+  fm_is_track_tag t = true ->
+  (* the signal is defined by an earlier SIGNAL_DEF chunk *)
+  exists sc d, In sc l /\ fm_tag (dw_hdr sc) = JLS_TAG_SIGNAL_DEF /\ fm_chunk_meta (dw_hdr sc) = sid /\
+               dw_parse_signal sc = Some d /\ dw_off sc < dw_off c /\
+  (ck = JLS_TRACK_CHUNK_DEF -> fm_payload_length h = 0) /\
+  (ck = JLS_TRACK_CHUNK_HEAD ->
+     fm_payload_length h = SIZEOF_track_head /\
+     dw_head_entries_ok (dw_heads l) tt sid 0 (dw_u64s (N.to_nat JLS_SUMMARY_LEVEL_COUNT) p)) /\
+  (ck = JLS_TRACK_CHUNK_INDEX ->
+     exists ph, fm_decode_payload_header p = Some ph /\ fm_payload_length h = fm_entries_length ph /\
+       let n := N.to_nat (fm_ph_entry_count ph) in
+       let body := skipn (N.to_nat SIZEOF_payload_header) p in
+       (tt = JLS_TRACK_TYPE_FSR ->
+          fm_ph_entry_size_bits ph = 64 /\
+          exists step, dw_fsr_step d lvl = Some step /\
+            dw_fsr_entries_ok l (dw_index_target tt sid lvl) lvl (fm_ph_timestamp ph) (Z.of_N step) (dw_u64s n body)) /\
+       (tt <> JLS_TRACK_TYPE_FSR ->
+          fm_ph_entry_size_bits ph = 8 * SIZEOF_index_entry /\
+          Forall (fun te => dw_entry_ok l (dw_index_target tt sid lvl) (fst te) (snd te)) (dw_ts_entries n body))).
+
+Lemma dw_entry_check_none : forall l want ts e, dw_entry_check (dw_map_of l) want ts e = None -> dw_entry_ok l want ts e.
+Proof.
+  intros l want ts e H. unfold dw_entry_check in H.
+  destruct (dw_lookup (dw_map_of l) e) as [d|] eqn:El; [|discriminate].
+  destruct (dw_lookup_some _ _ _ El) as [Hin Hoff].
+  destruct (dw_has_key d want) eqn:Ek; cbn [negb] in H; [|discriminate].
+  destruct (dw_chunk_ts d) as [t|] eqn:Et; [|discriminate].
+  destruct (t =? ts)%Z eqn:E; [|discriminate]. apply Z.eqb_eq in E. subst t.
+  exists d. repeat split; try assumption. now apply dw_has_key_true.
+Qed.
+
+Lemma dw_fsr_entries_check_none : forall l want lvl es ts step,
+  dw_fsr_entries_check (dw_map_of l) want lvl ts step es = None -> dw_fsr_entries_ok l want lvl ts step es.
+Proof.
+  induction es as [|e r IH]; intros ts step H; cbn [dw_fsr_entries_check dw_fsr_entries_ok] in *; [exact I|].
+  destruct (e =? 0) eqn:E0.
+  - apply N.eqb_eq in E0. destruct (lvl =? 1) eqn:E1; [|discriminate]. apply N.eqb_eq in E1.
+    split; [left; now split|now apply IH].
+  - apply N.eqb_neq in E0. destruct (dw_entry_check (dw_map_of l) want ts e) eqn:Ec; [discriminate|].
+    split; [right; split; [exact E0|now apply dw_entry_check_none]|now apply IH].
+Qed.
+
+Lemma dw_ts_entries_check_none : forall l want es,
+  dw_ts_entries_check (dw_map_of l) want es = None -> Forall (fun te => dw_entry_ok l want (fst te) (snd te)) es.
+Proof.
+  induction es as [|[t e] r IH]; intros H; cbn [dw_ts_entries_check] in H; [constructor|].
+  destruct (dw_entry_check (dw_map_of l) want t e) eqn:Ec; [discriminate|].
+  constructor; [now apply dw_entry_check_none|now apply IH].
+Qed.
+
+Lemma dw_head_entries_check_none : forall hs tt sid es lvl,
+  dw_head_entries_check hs tt sid lvl es = None -> dw_head_entries_ok hs tt sid lvl es.
+Proof.
+  induction es as [|e r IH]; intros lvl H; cbn [dw_head_entries_check dw_head_entries_ok] in *; [exact I|].
+  destruct (dw_find_head _ hs =? e) eqn:E; [|discriminate]. apply N.eqb_eq in E. split; [exact E|now apply IH].
+Qed.
+
+(* what dw_find_head says about the chunks *)
+Lemma dw_heads_in : forall l k o, In (k, o) (dw_heads l) ->
+  exists c, In c l /\ dw_off c = o /\ dw_key_of (dw_hdr c) = inr k /\ fm_item_prev (dw_hdr c) = 0 /\ k <> DwK_end.
+Proof.
+  induction l as [|c l IH]; intros k o H; cbn [dw_heads] in H; [destruct H|].
+  assert (Hrec : In (k, o) (dw_heads l) -> exists c0, In c0 (c :: l) /\ dw_off c0 = o /\ dw_key_of (dw_hdr c0) = inr k /\
+                                             fm_item_prev (dw_hdr c0) = 0 /\ k <> DwK_end).
+  { intros Hin. destruct (IH _ _ Hin) as (c0 & A & B). exists c0. split; [now right|exact B]. }
+  destruct (dw_key_of (dw_hdr c)) as [e|k'] eqn:Ek; [now apply Hrec|].
+  destruct k'; try (now apply Hrec);
+    (destruct (dw_is_head_of_list c) eqn:Eh; [|now apply Hrec];
+     destruct H as [H|H]; [|now apply Hrec];
+     inversion H; subst; exists c; unfold dw_is_head_of_list in Eh; apply N.eqb_eq in Eh;
+     repeat split; [now left|assumption|assumption|discriminate]).
+Qed.
+
+Lemma dw_find_head_some : forall k hs o, dw_find_head k hs = o -> o <> 0 -> In (k, o) hs.
+Proof.
+  induction hs as [|[k' o'] hs IH]; intros o H Hne; cbn in H; [congruence|].
+  destruct (dw_key_eqb k k') eqn:E.
+  - apply dw_key_eqb_eq in E. subst. now left.
+  - right. now apply IH.
+Qed.
+
+Lemma dw_find_head_none : forall k hs, Forall (fun p => snd p <> 0) hs -> dw_find_head k hs = 0 -> forall o, ~ In (k, o) hs.
+Proof.
+  intros k hs Hnz H o Hin. now apply (dw_find_head_in _ _ _ Hnz Hin).
+Qed.
+
+(* a head-table entry is the first chunk (item_prev = 0) of its list, and 0 only if the list has no first chunk *)
+Theorem dw_find_head_spec : forall l k, Forall (fun c => dw_off c <> 0) l -> k <> DwK_end ->
+  let e := dw_find_head k (dw_heads l) in
+  (e <> 0 -> exists c, In c l /\ dw_off c = e /\ dw_key_of (dw_hdr c) = inr k /\ fm_item_prev (dw_hdr c) = 0) /\
+  (e = 0 -> forall c, In c l -> dw_key_of (dw_hdr c) = inr k -> fm_item_prev (dw_hdr c) <> 0).
+Proof.
+  intros l k Hnz Hk e. split.
+  - intros Hne. destruct (dw_heads_in _ _ _ (dw_find_head_some _ _ _ eq_refl Hne)) as (c & A & B & C & D & _).
+    exists c. repeat split; assumption.
+  - intros He c Hin Hkc Hp.
+    apply in_split in Hin as (l1 & l2 & ->).
+    apply (dw_find_head_none k _ (dw_heads_nz _ Hnz) He (dw_off c)).
+    rewrite dw_heads_app. apply in_or_app. right. rewrite (dw_heads_one c k Hkc Hk Hp). now left.
+Qed.
+
+(* the signal table *)
+Lemma dw_sig_find_in : forall id t v, dw_sig_find id t = Some v -> In (id, v) t.
+Proof.
+  induction t as [|[i v'] t IH]; intros v H; cbn in H; [discriminate|].
+  destruct (i =? id) eqn:E; [apply N.eqb_eq in E; inversion H; subst; now left|right; now apply IH].
+Qed.
+
+Lemma dw_collect_signals_in : forall l acc t, dw_collect_signals l acc = DwOk t ->
+  forall id off d, In (id, (off, d)) t ->
+    In (id, (off, d)) acc \/
+    exists sc, In sc l /\ fm_tag (dw_hdr sc) = JLS_TAG_SIGNAL_DEF /\ fm_chunk_meta (dw_hdr sc) = id /\ dw_off sc = off /\ dw_parse_signal sc = Some d.
+Proof.
+  induction l as [|c l IH]; intros acc t H id off d Hin; cbn [dw_collect_signals] in H.
+  - inversion H; subst. left. now apply in_rev.
+  - destruct (fm_tag (dw_hdr c) =? JLS_TAG_SIGNAL_DEF) eqn:Et.
+    + destruct (fm_chunk_meta (dw_hdr c) <? JLS_SIGNAL_COUNT); cbn [negb] in H; [|discriminate].
+      destruct (dw_sig_find _ acc); [discriminate|].
+      destruct (dw_parse_signal c) as [d0|] eqn:Ep; [|discriminate].
+      destruct (IH _ _ H _ _ _ Hin) as [[E|A]|(sc & A & B)].
+      * inversion E; subst. right. exists c. apply N.eqb_eq in Et. repeat split; try assumption. now left.
+      * now left.
+      * right. exists sc. split; [now right|exact B].
+    + destruct (IH _ _ H _ _ _ Hin) as [A|(sc & A & B)]; [now left|].
+      right. exists sc. split; [now right|exact B].
+Qed.
+
+Lemma dw_track_check_none : forall l sigs c, dw_collect_signals l [] = DwOk sigs ->
+  dw_track_check (dw_map_of l) (dw_heads l) sigs c = None -> dw_track_ok l c.
+Proof.
+  intros l sigs c Hs H. unfold dw_track_ok. intros Htt. unfold dw_track_check in H. rewrite Htt in H. cbn [negb] in H.
+  destruct (dw_sig_find (fm_meta_signal (fm_chunk_meta (dw_hdr c))) sigs) as [[soff d]|] eqn:Ef; [|discriminate].
+  destruct (soff <? dw_off c) eqn:Eo; cbn [negb] in H; [|discriminate]. apply N.ltb_lt in Eo.
+  destruct (dw_collect_signals_in _ _ _ Hs _ _ _ (dw_sig_find_in _ _ _ Ef)) as [[]|(sc & A & B & C & D & E)].
+  exists sc, d. subst soff.
+  split; [exact A|]. split; [exact B|]. split; [exact C|]. split; [exact E|]. split; [exact Eo|].
+  split; [|split].
+  - intros Ek. rewrite Ek in H. change (JLS_TRACK_CHUNK_DEF =? JLS_TRACK_CHUNK_DEF) with true in H. cbn iota in H.
+    destruct (fm_payload_length (dw_hdr c) =? 0) eqn:E0; [now apply N.eqb_eq in E0|discriminate].
+  - intros Ek. rewrite Ek in H. change (JLS_TRACK_CHUNK_HEAD =? JLS_TRACK_CHUNK_DEF) with false in H.
+    change (JLS_TRACK_CHUNK_HEAD =? JLS_TRACK_CHUNK_HEAD) with true in H. cbn iota in H.
+    destruct (fm_payload_length (dw_hdr c) =? SIZEOF_track_head) eqn:E0; cbn [negb] in H; [|discriminate].
+    split; [now apply N.eqb_eq in E0|]. now apply dw_head_entries_check_none.
+  - intros Ek. rewrite Ek in H. change (JLS_TRACK_CHUNK_INDEX =? JLS_TRACK_CHUNK_DEF) with false in H.
+    change (JLS_TRACK_CHUNK_INDEX =? JLS_TRACK_CHUNK_HEAD) with false in H.
+    change (JLS_TRACK_CHUNK_INDEX =? JLS_TRACK_CHUNK_DATA) with false in H.
+    change (JLS_TRACK_CHUNK_INDEX =? JLS_TRACK_CHUNK_INDEX) with true in H. cbn iota in H.
+    rewrite andb_false_r in H.
+    destruct (fm_decode_payload_header (dw_payload c)) as [ph|] eqn:Eph; [|discriminate].
+    destruct (fm_ph_rsv16 ph =? 0); cbn [negb] in H; [|discriminate].
+    destruct (fm_payload_length (dw_hdr c) =? fm_entries_length ph) eqn:Elen; cbn [negb] in H; [|discriminate].
+    apply N.eqb_eq in Elen. exists ph. split; [reflexivity|]. split; [exact Elen|]. cbn zeta. split.
+    + intros Efsr. rewrite Efsr in H. change (JLS_TRACK_TYPE_FSR =? JLS_TRACK_TYPE_FSR) with true in H. cbn iota in H.
+      destruct (fm_ph_entry_size_bits ph =? 64) eqn:E64; cbn [negb] in H; [|discriminate]. apply N.eqb_eq in E64.
+      split; [exact E64|].
+      destruct (dw_fsr_step d _) as [step|] eqn:Est; [|discriminate].
+      exists step. split; [reflexivity|]. rewrite Efsr. apply dw_fsr_entries_check_none. exact H.
+    + intros Ents. apply N.eqb_neq in Ents. rewrite Ents in H.
+      destruct (fm_ph_entry_size_bits ph =? 8 * SIZEOF_index_entry) eqn:E128; cbn [negb] in H; [|discriminate]. apply N.eqb_eq in E128.
+      split; [exact E128|].
+      destruct (dw_ts_entries _ _) as [|[t0 e0] r] eqn:Ee; [constructor|].
+      destruct (t0 =? fm_ph_timestamp ph)%Z; cbn [negb] in H; [|discriminate].
+      now apply dw_ts_entries_check_none.
+Qed.
+
+Lemma dw_structure_ok_tracks : forall strict chunks w, dw_structure strict chunks = DwOk w ->
+  Forall (dw_track_ok chunks) chunks.
+Proof.
+  intros strict chunks w H. unfold dw_structure in H.
+  destruct (if strict then dw_ppl_mismatches 0 true chunks else []) as [|[[[[o ?] ?] ?] ?] ?] eqn:Ep; [|discriminate].
+  apply dw_of_first_err_ok in H as [E1 H].
+  destruct (dw_heads_dup (dw_heads chunks)) eqn:E2; [discriminate|].
+  destruct (dw_collect_sources chunks) as [sources|]; [|discriminate].
+  destruct (dw_collect_signals chunks []) as [sigs|] eqn:Es; [|discriminate].
+  apply dw_of_first_err_ok in H as [E3 H]. apply dw_of_first_err_ok in H as [E4 H].
+  apply dw_first_err_none in E4. rewrite Forall_forall in *. intros c Hc. eapply dw_track_check_none; eauto.
+Qed.
+
+(* pointers of an accepted file: head tables and index entries *)
+Theorem dw_walk_gen_sound_pointers : forall strict f w, dw_walk_gen strict f = DwOk w ->
+  Forall (dw_track_ok (dw_w_chunks w)) (dw_w_chunks w).
+Proof.
+  intros strict f w H. unfold dw_walk_gen in H. rewrite dw_len_eq, dw_len_N_eq in H.
+  destruct (fm_fh_complete f); cbn [negb] in H; [|discriminate].
+  destruct (fm_fh_ident_ok f); cbn [negb] in H; [|discriminate].
+  destruct (fm_decode_file_header f) as [fh|]; [|discriminate].
+  destruct (fm_version_major (fm_fh_version fh) =? fm_version_major JLS_FORMAT_VERSION_U32); cbn [negb] in H; [|discriminate].
+  destruct (fm_fh_length fh =? N.of_nat (length f)); cbn [negb] in H; [|discriminate].
+  destruct (dw_scan _ _ _) as [chunks|e o]; [|discriminate].
+  destruct (dw_structure_ok _ _ _ H) as (Hw & _). rewrite Hw. eapply dw_structure_ok_tracks; eauto.
+Qed.
+
+Theorem dw_walk_sound_pointers : forall f w, dw_walk f = DwOk w -> Forall (dw_track_ok (dw_w_chunks w)) (dw_w_chunks w).
+Proof. intros f w H. now apply (dw_walk_gen_sound_pointers true f). Qed.
+
+Theorem dw_walk_report_sound_pointers : forall f w, dw_walk_report f = DwOk w -> Forall (dw_track_ok (dw_w_chunks w)) (dw_w_chunks w).
+Proof. intros f w H. now apply (dw_walk_gen_sound_pointers false f). Qed.
+
+Theorem dw_walk_find_head_spec : forall strict f w k, bytes_ok f -> dw_walk_gen strict f = DwOk w -> k <> DwK_end ->
+  let l := dw_w_chunks w in
+  let e := dw_find_head k (dw_heads l) in
+  (e <> 0 -> exists c, In c l /\ dw_off c = e /\ dw_key_of (dw_hdr c) = inr k /\ fm_item_prev (dw_hdr c) = 0) /\
+  (e = 0 -> forall c, In c l -> dw_key_of (dw_hdr c) = inr k -> fm_item_prev (dw_hdr c) <> 0).
+Proof.
+  intros strict f w k Hb H Hk. pose proof (dw_walk_gen_sound _ _ _ Hb H) as C.
+  apply dw_find_head_spec; [|exact Hk].
+  pose proof (dw_tiles_offsets _ _ _ (dw_cf_tiles _ _ _ C)) as Ho. rewrite Forall_forall in *. intros c Hc. specialize (Ho c Hc). lia.
+Qed.
 
 (* the soundness theorem with the record spelled out (for Properties_C05.v) *)
 Theorem dw_walk_sound_explicit : forall f w, bytes_ok f -> dw_walk f = DwOk w ->
